@@ -407,18 +407,30 @@ class Engine:
             mask[rng.randrange(m)] = True
         return {"t": "mask", "m": mask}
 
+    def _key_for(self, rng, h):
+        key = self._rand_key(rng, h.shape[0])
+        if len(h.shape) >= 2 and rng.random() < 0.4:
+            # a key over both composite axes: (i, j), (slice, j), (i, slice)
+            first = rng.choice([{"t": "int", "i": rng.randrange(-h.shape[0], h.shape[0])},
+                                {"t": "slice", "a": 0, "b": h.shape[0], "s": 1}])
+            second = {"t": "int", "i": rng.randrange(-h.shape[1], h.shape[1])}
+            if rng.random() < 0.3:
+                a = rng.randrange(0, h.shape[1])
+                second = {"t": "slice", "a": a, "b": rng.randrange(a + 1, h.shape[1] + 1), "s": 1}
+            key = {"t": "tuple", "k": [first, second]}
+        return key
+
     def _gen_index(self, rng, world):
         h = self._pick(rng, world, lambda x: len(x.shape) >= 1)
         if h is None:
             return None
-        return {"op": "index", "new": self._new_id(world), "h": h.id,
-                "key": self._rand_key(rng, h.shape[0])}
+        return {"op": "index", "new": self._new_id(world), "h": h.id, "key": self._key_for(rng, h)}
 
     def _gen_setitem(self, rng, world):
         h = self._pick(rng, world, lambda x: len(x.shape) >= 1 and not x.cplx)
         if h is None:
             return None
-        key = self._rand_key(rng, h.shape[0])
+        key = self._key_for(rng, h)
         sub = h.data[_key(key)]
         tshape = list(sub.shape[:-2])
         mates = [o for o in world.live() if o.kind == h.kind and list(o.data.shape) == list(sub.shape)
@@ -670,7 +682,7 @@ class Engine:
 
     def _do_index(self, world, op, vs):
         h = world.handles[op["h"]]
-        if not h.shape or not _key_ok(op["key"], h.shape[0]):
+        if not h.shape or not _key_ok(op["key"], h.shape[0], h.shape):
             return "skipped:key"
         key = _key(op["key"])
         sub = h.data[key]
@@ -686,7 +698,7 @@ class Engine:
 
     def _do_setitem(self, world, op, vs):
         h = world.handles[op["h"]]
-        if not h.shape or not _key_ok(op["key"], h.shape[0]) or h.cplx:
+        if not h.shape or not _key_ok(op["key"], h.shape[0], h.shape) or h.cplx:
             return "skipped:key"
         key = _key(op["key"])
         sub = h.data[key]
@@ -1050,14 +1062,28 @@ def _key(k):
         return k["i"]
     if k["t"] == "slice":
         return slice(k["a"], k["b"], k["s"])
+    if k["t"] == "ellipsis":
+        return Ellipsis
+    if k["t"] == "tuple":
+        return tuple(_key(x) for x in k["k"])
     return np.array(k["m"], dtype=bool)
 
 
-def _key_ok(k, m):
+def _key_ok(k, m, shape=None):
     if k["t"] == "int":
         return -m <= k["i"] < m
     if k["t"] == "slice":
         return 0 <= k["a"] < k["b"] <= m
+    if k["t"] == "tuple":
+        if shape is None or len(shape) < 2 or len(k["k"]) != 2:
+            return False
+        a, b = k["k"]
+        if a["t"] == "ellipsis":
+            # (Ellipsis, j) would index the *unit* axes, not the composite ones
+            return False
+        return _key_ok(a, shape[0]) and _key_ok(b, shape[1])
+    if k["t"] == "ellipsis":
+        return False
     return len(k["m"]) == m and any(k["m"])
 
 
